@@ -9,10 +9,11 @@ CONSTANTS
  Schemes = {"reg", "ocidir"}
  Vias = {"reader"}
  Withs = {TRUE, FALSE}
- Chunks = {1, 5}
+ Chunks = {5}
  LyingSizes = TRUE
  InlineData = TRUE
  Conc = 64
+ Probes = FALSE
 INIT Init
 NEXT Next
 VIEW View
